@@ -3,6 +3,7 @@ pub mod c02;
 pub mod c03;
 pub mod c04;
 pub mod c05;
+pub mod c06;
 pub mod c07;
 pub mod c08;
 pub mod c09;
@@ -32,6 +33,7 @@ pub fn lookup(id: &str) -> Option<(&'static str, RunFn, ReplayFn, &'static str, 
         "C03" => ("C03", c03::run, c03::replay, "exploration", c03::worker),
         "C04" => ("C04", c04::run, c04::replay, "exploration", c04::worker),
         "C05" => ("C05", c05::run, c05::replay, "exploration", c05::worker),
+        "C06" => ("C06", c06::run, c06::replay, "exploration", c06::worker),
         "C07" => ("C07", c07::run, c07::replay, "exploration", c07::worker),
         "C08" => ("C08", c08::run, c08::replay, "exploration", c08::worker),
         "C09" => ("C09", c09::run, c09::replay, "exploration", c09::worker),
